@@ -148,6 +148,7 @@ def main():
 
     # ---- verdicts -----------------------------------------------------------------------------------------
     violations = []
+    fuzz_cache = {}
     known_lines = []
     degraded = []
     n_replayed = n_witness
@@ -181,6 +182,27 @@ def main():
                 status = 'reproduced' if p.returncode == 0 else rp['replay'].get('status')
             except subprocess.TimeoutExpired:
                 status = 'replay-timeout'
+        if status != 'reproduced' and o.get('target', '').count(':') == 1 and o['target'] in REG.contracts:
+            # no replayable counter-model: bounded search for a concrete failing input of this contract on the
+            # real code (pyvc.fuzz under /venv/bin/python); a hit is a replayed counterexample
+            try:
+                if o['target'] not in fuzz_cache:
+                    p = subprocess.run([VENV_PY, '-m', 'pyvc.fuzz', ','.join(modules), o['target'], '--n', '4000',
+                                        '--seconds', '25', '--seed', str(seed)], env=env, cwd=VERIF,
+                                       capture_output=True, text=True, timeout=180)
+                    fuzz_cache[o['target']] = json.loads(p.stdout)
+                fz = fuzz_cache[o['target']]
+                rp['bounded_search'] = {k: fz.get(k) for k in ('tried', 'accepted', 'errors', 'seconds')}
+                if fz.get('failures'):
+                    hit = fz['failures'][0]
+                    rp['bounded_search']['failing_input'] = hit
+                    rp['inputs'] = hit['inputs']
+                    rp['clause'] = hit['clause'] if hit['index'] >= 0 else rp['clause']
+                    rp['kind'] = 'ensures' if hit['index'] >= 0 else 'noexc'
+                    rp['note'] = 'failing input found by bounded search on the real function (contract clause #%s)' % hit['index']
+                    status = 'reproduced'
+            except Exception as e:      # noqa
+                rp['bounded_search'] = {'error': str(e)}
         rp['replay_status'] = status
         with open(rfile, 'w') as f:
             json.dump(rp, f, indent=1, default=str)
